@@ -6,6 +6,7 @@ package main
 import (
 	"fmt"
 	"go/types"
+	"os"
 	"strconv"
 	"strings"
 
@@ -19,6 +20,7 @@ type modelState struct {
 	symbolicMapOrder bool
 	manualClock      bool
 	preemptive       bool
+	lockOrder        []int // logical goroutine ids in the order they acquired the package's mutexes
 	expectPanic      []string
 	observe          []string
 	observeVals      []obsEntry
@@ -38,16 +40,31 @@ type obsEntry struct {
 
 var models = map[string]modelFn{}
 
+var memoCache = map[string]string{}
+
 func init() {
 	registerAPIModels()
 	registerStdModels()
 }
 
+var (
+	modelKeyCache = map[*ssa.Function]string{}
+	fnNameCache   = map[*ssa.Function]string{}
+	fnIsRepoCache = map[*ssa.Function]bool{}
+)
+
 func modelKey(fn *ssa.Function) string {
-	if o := fn.Origin(); o != nil {
-		return o.String()
+	if k, ok := modelKeyCache[fn]; ok {
+		return k
 	}
-	return fn.String()
+	k := ""
+	if o := fn.Origin(); o != nil {
+		k = o.String()
+	} else {
+		k = fn.String()
+	}
+	modelKeyCache[fn] = k
+	return k
 }
 
 func (it *Interp) callModel(fr *frame, fn *ssa.Function, args []Value) (Value, bool) {
@@ -314,6 +331,74 @@ func registerAPIModels() {
 	// are still alive (blocked).
 	apiModels["verifPreemptive"] = func(it *Interp, fr *frame, fn *ssa.Function, args []Value) Value {
 		it.mstate.preemptive = args[0].(*Term).isTrue()
+		return nil
+	}
+	// verifRaceDetect(): turn on vector-clock data-race detection for this path.
+	apiModels["verifRaceDetect"] = func(it *Interp, fr *frame, fn *ssa.Function, args []Value) Value {
+		it.lockLog = newRaceDetector(it)
+		return nil
+	}
+	// verifAssertNoRaces(label): report the races seen so far as a violation.
+	apiModels["verifAssertNoRaces"] = func(it *Interp, fr *frame, fn *ssa.Function, args []Value) Value {
+		if it.lockLog == nil || it.ex.replaying() {
+			return nil
+		}
+		it.ex.Asserts++
+		if len(it.lockLog.races) == 0 {
+			it.ex.AssertsHeld++
+			return nil
+		}
+		label := argStr(args[0])
+		for _, r := range it.lockLog.races {
+			known := ""
+			for _, k := range it.ex.known {
+				if k.Label == label && k.Where != "" && strings.Contains(r, k.Where) {
+					known = k.ID
+				}
+			}
+			if it.ex.solver.Check() != Unsat {
+				it.ex.recordViolationKeyed(label, "race", r, known, r)
+			}
+		}
+		it.lockLog.races = nil
+		return nil
+	}
+	// verifMemo(key, f): f is a deterministic, decision-free, self-contained computation
+	// with a concrete string result (e.g. a sequential reference execution on a private
+	// registry); its result is computed by interpreting f once per worker and reused on
+	// later paths. If f makes a solver decision or returns a symbolic string it is not
+	// cached.
+	apiModels["verifMemo"] = func(it *Interp, fr *frame, fn *ssa.Function, args []Value) Value {
+		key := argStr(args[0])
+		if v, ok := memoCache[key]; ok {
+			return mkStr(v)
+		}
+		pos := it.ex.pos
+		res := it.call(fr, fn.Pos(), args[1], nil)
+		if s, ok := res.(Str); ok && it.ex.pos == pos {
+			if s = s.force(); s.isConcrete() {
+				memoCache[key] = s.s
+			}
+		}
+		return res
+	}
+	// verifGoID(k): declares the logical id of the calling goroutine (main is 0, others are
+	// numbered in creation order); used natively to replay the lock acquisition order.
+	apiModels["verifGoID"] = func(it *Interp, fr *frame, fn *ssa.Function, args []Value) Value {
+		k := int(args[0].(*Term).sval())
+		id := 0
+		if fr.g != nil {
+			id = fr.g.id
+		}
+		if k != id {
+			panic(unsupported(fmt.Sprintf("verifGoID(%d) called by goroutine %d: ids must follow creation order", k, id)))
+		}
+		return nil
+	}
+	apiModels["verifDebug"] = func(it *Interp, fr *frame, fn *ssa.Function, args []Value) Value {
+		if os.Getenv("SYMGO_DEBUG") != "" {
+			fmt.Fprintf(os.Stderr, "DEBUG %s = %s\n", argStr(args[0]), observeString(args[1].(Iface).v))
+		}
 		return nil
 	}
 	apiModels["verifQuiesce"] = func(it *Interp, fr *frame, fn *ssa.Function, args []Value) Value {
